@@ -12,7 +12,8 @@ CHECKS = {
             "Every SPD system over the stated alphabet (all of them for n<=4, one-irregular-position patterns and "
             "scalings above) is solved by the real SymmetricTridiagonalSolver for all unit right-hand sides and all "
             "solve histories up to depth 3/4; each solve is judged against a dense long-double reference and against "
-            "a fresh object bit for bit.",
+            "a fresh object bit for bit; every system is also assigned (copy, move) into an object that has solved the previous system of its "
+            "size, and a used object is copied into a fresh one, each of which must then solve like a fresh object.",
             "Trusted: the dense reference, g++/libstdc++, the documented matrix layout. Bounded by the alphabet and n.",
             "DESIGN.md 5/C14"),
     "C15": ("histbfs", "model_checking",
@@ -20,8 +21,9 @@ CHECKS = {
             "Breadth-first search over all histories of construct / set entries / solve / copy- and move-construct / "
             "copy- and move-assign (incl. self copy-assign, empty and moved-from sources) on three slots for Vector, "
             "SparseMatrixCOO, SparseMatrixCSR, SparseLUSolver, SymmetricTridiagonalSolver and DiagonalSolver. States are "
-            "canonical strings of all visible and hidden fields plus the model; the search saturates (depth 6 quick, 9 "
-            "thorough). After every transition every live object is observed (element reads, solves against a dense "
+            "canonical strings of all visible and hidden fields plus the model; the search saturates (depth 7 quick, 9 "
+            "thorough); sparse shapes include non-square ones with equal entry and column counts; a separate exhaustive block runs "
+            "every special member of Vector above the 10 000-element team threshold with team sizes 1,2,3,5,8. After every transition every live object is observed (element reads, solves against a dense "
             "reference) and compared with the value-semantics model, under ASan+UBSan.",
             "Trusted: the value-semantics model (moved-from == empty), the dense reference solve. Self-move-assignment "
             "is outside the alphabet.",
@@ -41,16 +43,20 @@ CHECKS = {
             "coordinates, every class of explicit splitting radius plus the automatic split, is queried at every node and "
             "for every unwrapped theta index in [-3ntheta-1, 3ntheta+1]; all index/multiIndex API pairs, neighbour and "
             "spacing queries and the split partition are compared with a reference numbering; each grid is coarsened to "
-            "the smallest grid and every coarse grid is re-checked. Assertions on, ASan+UBSan.",
+            "the smallest grid and every coarse grid is re-checked; an automatic-split sweep (many angular nodes per radial node x 39 "
+            "inner radii) checks the minimum sizes of the automatic split. Assertions on, ASan+UBSan.",
             "Trusted: the reference numbering written from the documented layout.",
             "DESIGN.md 5/C17"),
     "C01": ("cfglat", "exploration",
             "exhaustive enumeration of the option lattice of the assembled solver with an independent residual oracle",
             "The full cross product of the core options (3 geometries x 3 problems x 7 coefficient classes x boundary x "
             "strategy x extrapolation x cycle = 2268 configurations on 17x32, plus mode 2) and every configuration within "
-            "1 (quick) / 2 (thorough) deviations of 6 representative cores in the secondary options are solved through "
-            "the public API. Each run must converge with a reduction factor < 1, and every early stop is re-judged with a "
-            "residual recomputed from nothing but the returned vector and the problem data.",
+            "1-2 (quick) / 3 (thorough) deviations of 6 representative cores in the secondary options (incl. verbosity, one-sided smoothing, "
+            "geometry parameters, hole size, a non-uniform grid loaded from files) and solves on 129x256 with 1 and 3 threads are run "
+            "through the public API. Each run must converge with a reduction factor < 1, every early stop is re-judged with a "
+            "residual recomputed from nothing but the returned vector and the problem data, results must not depend on the verbosity, "
+            "and every ordered pair of 17 representative solves in one process must equal the same solve in a fresh process. The input "
+            "functions handed to the library are argument-monitored and the boundary data poisoned outside their boundary.",
             "Exploration, not model checking: tolerances, mesh widths and geometry parameters are a continuum covered on a "
             "declared alphabet. Trusted: the independent residual in harness/gmgcfg.h (other strategy's operator, own rhs).",
             "DESIGN.md 5/C01"),
@@ -60,7 +66,9 @@ CHECKS = {
             "vectors for give x 4 cache combinations and take, with 1 and 3 threads, on every level of the coarsening "
             "chain built as setup() builds it; all matrices must equal each other and an independently written dense "
             "assembler of the documented 9-/7-point stencil, Dirichlet rows must be identity rows, the affine part exact, "
-            "and coarse caches must equal a fresh evaluation. The operator is linear, so its action on a basis is the operator.",
+            "and coarse caches must equal a fresh evaluation. The operator is linear, so its action on a basis is the operator (linearity is "
+            "probed with generic vectors of size O(1), 1e-20, 1e18); all ordered pairs of representative cases run in one probe process "
+            "and are compared bit for bit with a fresh process (C03-C08); the thorough tier adds a full-product block.",
             "Trusted: the reference stencil (checks/opalg_lib.py), numpy. Bounded by the lattice (nr<=11(17), ntheta<=16(32)).",
             "DESIGN.md 5/C03"),
     "C04": ("opalg", "model_checking",
@@ -101,29 +109,36 @@ CHECKS = {
             "identities, optimised == reference, injection o prolongation = I, non-negative weights, row sums and linear "
             "reproduction (row by row, local angles) are checked; rows failing exactly as the recorded weight defect F2 "
             "predicts are reported as KNOWN-FINDING, any other failing row is a violation.",
-            "Trusted: numpy. Grids above 10 000 nodes (parallel branches of the transfers) are covered by C11/C12.",
+            "Trusted: numpy. The thorough tier extracts two pairs above 10 000 fine nodes (65x160, 41x256) with 3 threads; the quick tier "
+            "reaches those branches through C11/C12 only.",
             "DESIGN.md 5/C08"),
     "C09": ("opalg+histbfs", "model_checking",
             "exhaustive basis enumeration of the FMG interpolation + enumeration of start-up configurations x object histories",
             "Part 1: the FMG interpolation matrix of every grid pair is judged row by row (coarse copy, constants, support, "
             "tensor-cubic exactness / cubic-linear next to the boundaries). Part 2: for L in 2..4(5) levels x FMG cycle x "
             "FMG iterations {0,1,2} x extrapolation x strategy the start vector (maxIterations = 0) must be bitwise "
-            "identical over 5 object histories and equal the harness's nested iteration; accuracy judged with 2 cycles.",
-            "Trusted: the harness-side nested iteration (same operators, documented order).",
+            "identical over 5 object histories and equal the harness's nested iteration - built from the levels' PUBLIC operators, a "
+            "reference cycle composed in the harness and right-hand sides the harness discretises itself on every level; accuracy "
+            "judged with 2 cycles; all ordered pairs of 12 representative start-ups in one process equal the fresh process.",
+            "Trusted: the harness-side nested iteration and reference cycle (public operators, documented order).",
             "DESIGN.md 5/C09"),
     "C13": ("histbfs", "model_checking",
-            "explicit enumeration of all operation histories (option block, setup, solve x n) up to depth 2/3 on one object",
-            "All histories of up to 2 (quick) / 3 (thorough) blocks over 6 / 8 option tuples, each block = setters, setup(), "
-            "1 or 2 solve() calls, run on ONE solver object; after every solve the observation (solution bitwise, "
-            "iterations, reduction factor, error figures) must equal a freshly constructed solver's.",
-            "Trusted: a fresh object is the specification. Input functions are fixed per object.",
+            "explicit enumeration of all operation histories (option block, setup, solve x n) up to depth 3/4 on one object",
+            "All histories of up to 3 (quick) / 4 (thorough) blocks over 9 / 13 option tuples (incl. the convergence_order refinement "
+            "loop, a non-uniform loaded grid and tuples setup() rejects, after which the caller goes on with the same object), each "
+            "block = setters (all of them, or only those of changed options), setup(), 1 or 2 solve() calls, run on ONE solver object; "
+            "after every solve the observation (solution bitwise, iterations, reduction factor, the error getters) must equal a freshly "
+            "constructed solver's, whose own reference comes from a process that has handled nothing else.",
+            "Trusted: a fresh object in a fresh process is the specification. Input functions are fixed per object.",
             "DESIGN.md 5/C13"),
     "C02": ("cfglat", "exploration",
             "exhaustive enumeration of the shipped problem table on a refinement chain, observed-order oracle",
             "All 63 smooth shipped triples x interior boundary x {give, take (+ uncached give variants)} x {no, implicit} "
-            "extrapolation are solved on the chain divideBy2 = 1,2(,3); the observed order between successive refinements "
-            "must be >= 1.75 without and >= 3.2 / 2.5 (weighted l2 / max) with extrapolation, and on the finest grid the "
-            "extrapolated error must be the smaller one. The three Poisson x Czarny triples are a recorded finding (F1).",
+            "extrapolation, plus two-level x {V,W,F} variants, are solved on the chain divideBy2 = 0,1,2(,3, subset 4); the observed order "
+            "between successive refinements must be >= 1.75 (1.5 on the first pair) without and >= 3.2 / 2.5 (weighted l2 / max) with "
+            "extrapolation, on the finest grid the extrapolated error must be the smaller one, all variants of one triple must have the "
+            "same error norms on every grid, and the error figures the solver reports are recomputed from the returned vector. The three "
+            "Poisson x Czarny triples are a recorded finding (F1).",
             "Exploration: the mesh width is a continuum, the order is judged on a stated chain. Errors are computed by the harness.",
             "DESIGN.md 5/C02"),
     "C10": ("opalg+histbfs", "model_checking",
@@ -132,7 +147,9 @@ CHECKS = {
             "boundary: (a) started from the dense exact solution of the (extrapolated) system a cycle must return it (with a "
             "control start that must move), (b) for L = 2 without smoothing the cycle is compared on EVERY unit iterate and unit "
             "right-hand side with u + P A_c^-1 R (f - A u) resp. the extrapolated formula formed from the public operators, "
-            "(c) dirty work vectors and (d) repeated cycles on one object must not change the result bitwise.",
+            "(c) dirty work vectors and (d) repeated cycles on one object must not change the result bitwise, (e) for every depth, cycle "
+            "type and smoothing count the cycle equals a reference cycle composed in the harness from the levels' public operators "
+            "(bit-identical on the tree as given), (f) all ordered pairs of 12 representative cycle cases in one process equal the fresh process.",
             "Trusted: dense Gaussian elimination in the harness; the definition of the extrapolated system (DESIGN.md).",
             "DESIGN.md 5/C10"),
     "C11": ("mcomp", "model_checking",
@@ -140,9 +157,12 @@ CHECKS = {
             "The library, compiled with -fopenmp -fsanitize=thread, is linked with mcomp instead of libgomp/libtsan: team members "
             "are coroutines, scheduling points are barriers, every access of every member is recorded per barrier epoch at byte "
             "granularity and any byte written by one member and touched by another in the same epoch is a race. Explored: the "
-            "identity schedule plus every single-epoch deviation for 8 stencil operators x 48 shapes x team sizes, level caches, "
-            "transfers, vector kernels and whole setup()+solve() runs. A clean epoch makes all its interleavings equivalent.",
-            "Assumes barriers are the only synchronisation (true for this code base: no locks, atomics only in reductions). "
+            "identity schedule plus every single-epoch deviation for 8 stencil operators x 48 shapes (all lattice geometries, Culham "
+            "included) x team sizes, the same operators on a 65x160 grid (above the 10 000-node threshold), level caches, transfers, "
+            "vector kernels, whole setup()+solve() runs and every shipped input-function class. A clean epoch makes all its "
+            "interleavings equivalent. 21 engine self-test kernels with a known verdict run first.",
+            "Synchronisation modelled: barriers, critical sections (named too), lock-based atomics, single, dynamic/guided loops (one "
+            "chunk assignment per explored order); tasks are reported as unsupported. The code base as given uses barriers only. "
             "Trusted: the compiler's TSan instrumentation plus the runtime's memmove/memcpy/memset logging, checked by a "
             "write-completeness audit. g++ lowering only.",
             "DESIGN.md 2.1, 5/C11"),
@@ -151,7 +171,8 @@ CHECKS = {
             "For every case all explored schedules must give bit-identical outputs and access sets; the same instrumented "
             "objects linked with the real libgomp and run three times on real threads must give the same bits as the explorer; "
             "results for team sizes 1..16(32) are compared with the single-thread result within re-association tolerances; "
-            "reduction kernels are judged for every arrival order explored; the threads-per-level table is enumerated for 1..32 threads.",
+            "reduction kernels are judged for every arrival order explored and every element-wise kernel against its definition below and "
+            "above the parallelisation threshold; the threads-per-level table is enumerated for 1..32 threads.",
             "Trusted: the single-thread run as reference; tolerances per operator class.",
             "DESIGN.md 5/C12"),
     "C18": ("enumerators", "fault_enumeration",
@@ -159,23 +180,29 @@ CHECKS = {
             "Every combination of nr_exp, ntheta_exp, anisotropic factor, divideBy2, three domains and 14-18 refinement radii "
             "(inside, at and outside [R0, Rmax], incl. the command-line default 0) is constructed with assertions on and with "
             "NDEBUG; each is either rejected by an exception or yields a grid satisfying the validity, midpoint, nesting and "
-            "level-count invariants; grid files are round-tripped and every single-token fault at 9 positions is injected.",
+            "level-count invariants; grid files are round-tripped, every single-token fault at 9 positions is injected, and 8 kinds of "
+            "angle-array faults are injected at every position through the file and the array constructor.",
             "Trusted: the validity invariants in harness/c18_grid.cpp.",
             "DESIGN.md 5/C18"),
     "C19": ("enumerators", "exploration",
             "exhaustive enumeration of the selection table, each class on a generic point lattice against high-order numerical differentiation",
             "All 128 option tuples go through the real selectTestCase(); the 77 selectable quintuples are evaluated on a generic "
             "12x16 (24x32) lattice: Jacobians vs differentiated mapping (Culham included), rhs_f vs -div(alpha grad u)+beta u by "
-            "nested 6th-order differences at three step sizes, boundary data vs exact solution, gyro relation, class names vs options.",
+            "nested 6th-order differences at three step sizes, boundary data vs exact solution, gyro relation, class names vs options, "
+            "purity (three evaluation orders, bit-identical), and every class with a defined default constructor, default-constructed, "
+            "against the object the table builds with the documented defaults.",
             "Exploration: points are a continuum; all functions are analytic and the lattice generic.",
             "DESIGN.md 5/C19"),
     "C20": ("cfglat", "fault_enumeration",
             "deviation-bounded enumeration of the option lattice through API and command line under sanitizers, fill-pattern differential, valgrind slice",
-            "3 base configurations + every single deviation over 26 options (+ hand-picked and, thorough, all pairs) run through "
+            "3 base configurations + every single deviation over 30 options (incl. verbosity, paraview, the solver's grid-file options, "
+            "negative counts; + hand-picked and, thorough, all pairs) run through "
             "the public API under ASan+UBSan with assertions on and with NDEBUG and through the gmgpolar executable (plus invalid "
             "enum integers that must be rejected); completed runs are repeated in the release build with two stack/heap fill "
-            "patterns (statistics must be bit-identical) and a slice runs under valgrind memcheck.",
-            "Option values outside the documented kinds (negative sizes / thread counts) are not in the alphabet.",
+            "patterns (statistics must be bit-identical), a second solver configured through setParameters(argc, argv) must agree with "
+            "the setter-configured twin (getters, iterations, factor, errors, solution), a grid written by one solver and loaded by "
+            "another gives the same solve, and a slice runs under valgrind memcheck.",
+            "Negative thread counts and grid exponents are not in the alphabet.",
             "DESIGN.md 5/C20"),
 }
 
